@@ -172,6 +172,11 @@ func init() {
 			}
 			e.osRecord("File."+name, f.name)
 			if f.closed {
+				if name == "ReadDir" {
+					// the real os.File.ReadDir on a closed file reports "use of closed file" (poll.ErrFileClosing),
+					// which does not match ErrClosed (measured on go1.23 linux)
+					return result(e, false, e.pathError("readdirent", f.name, e.newNamedError("use of closed file")))
+				}
 				return result(e, false, e.pathError(op, f.name, e.osSentinel("ErrClosed")))
 			}
 			if name == "Close" {
